@@ -110,3 +110,9 @@ package pktline
 //gvc:  ensures data: err == nil && l > 4 ==> r.#pos == p0 + l && l == raw && l <= len(p)
 //gvc:  ensures payload: err == nil && l > 4 ==> forall(k, 4, l, p[k] == r.#data[p0 + k])
 //gvc:end
+
+//gvc:func NewScanner
+//gvc:  props C34
+//gvc:  theory int
+//gvc:  ensures direct: result != nil && result.r == r && result.err == nil && result.n == 0
+//gvc:end
